@@ -1,5 +1,13 @@
 (* Conversions between the text protocol and the extracted Coq datatypes. *)
-open Model
+type str = string
+module SL = Stdlib.List
+open Datatypes
+open BinNums
+open Prelude
+open Bits
+open Codec
+open Cell
+open Lexer
 
 let nat_of_int (i : int) : nat =
   let r = ref O in
@@ -10,9 +18,9 @@ let int_of_nat (n : nat) : int =
 
 (* positive <-> hex *)
 let rec pos_bits_lsb (p : positive) : int list =
-  match p with XH -> [1] | XO q -> 0 :: pos_bits_lsb q | XI q -> 1 :: pos_bits_lsb q
+  match p with Coq_xH -> [1] | Coq_xO q -> 0 :: pos_bits_lsb q | Coq_xI q -> 1 :: pos_bits_lsb q
 
-let hex_of_bits_lsb (bits : int list) : string =
+let hex_of_bits_lsb (bits : int list) : str =
   let a = Array.of_list bits in
   let n = Array.length a in
   let nd = (n + 3) / 4 in
@@ -28,8 +36,8 @@ let hex_of_bits_lsb (bits : int list) : string =
   Buffer.contents b
 
 let hex_of_pos p = hex_of_bits_lsb (pos_bits_lsb p)
-let hex_of_n (x : n) = match x with N0 -> "0" | Npos p -> hex_of_pos p
-let hex_of_z (x : z) = match x with Z0 -> "0" | Zpos p -> hex_of_pos p | Zneg p -> "-" ^ hex_of_pos p
+let hex_of_n (x : coq_N) = match x with N0 -> "0" | Npos p -> hex_of_pos p
+let hex_of_z (x : coq_Z) = match x with Z0 -> "0" | Zpos p -> hex_of_pos p | Zneg p -> "-" ^ hex_of_pos p
 
 let hexval c =
   match c with
@@ -38,53 +46,143 @@ let hexval c =
   | 'A'..'F' -> Char.code c - 55
   | _ -> failwith "hexval"
 
-(* msb-first bits of a hex string, leading zeros removed; None if zero *)
-let pos_of_hex (s : string) : positive option =
+(* msb-first bits of a hex str, leading zeros removed; None if zero *)
+let pos_of_hex (s : str) : positive option =
   let acc = ref None in
-  String.iter (fun c ->
+  Stdlib.String.iter (fun c ->
     let v = hexval c in
     for k = 3 downto 0 do
       let b = (v lsr k) land 1 in
       acc := (match !acc with
-              | None -> if b = 1 then Some XH else None
-              | Some p -> Some (if b = 1 then XI p else XO p))
+              | None -> if b = 1 then Some Coq_xH else None
+              | Some p -> Some (if b = 1 then Coq_xI p else Coq_xO p))
     done) s;
   !acc
 
 let n_of_hex s = match pos_of_hex s with None -> N0 | Some p -> Npos p
 let z_of_hex s =
-  if String.length s > 0 && s.[0] = '-' then
-    (match pos_of_hex (String.sub s 1 (String.length s - 1)) with None -> Z0 | Some p -> Zneg p)
+  if Stdlib.String.length s > 0 && s.[0] = '-' then
+    (match pos_of_hex (Stdlib.String.sub s 1 (Stdlib.String.length s - 1)) with None -> Z0 | Some p -> Zneg p)
   else (match pos_of_hex s with None -> Z0 | Some p -> Zpos p)
 
-let n_of_int (i : int) : n = n_of_hex (Printf.sprintf "%x" i)
-let int_of_n (x : n) : int = int_of_string ("0x" ^ hex_of_n x)
-let z_of_int (i : int) : z = if i < 0 then (match n_of_int (-i) with N0 -> Z0 | Npos p -> Zneg p)
+let n_of_int (i : int) : coq_N = n_of_hex (Printf.sprintf "%x" i)
+let int_of_n (x : coq_N) : int = int_of_string ("0x" ^ hex_of_n x)
+let z_of_int (i : int) : coq_Z = if i < 0 then (match n_of_int (-i) with N0 -> Z0 | Npos p -> Zneg p)
                              else (match n_of_int i with N0 -> Z0 | Npos p -> Zpos p)
 
-let bytes_of_hex (s : string) : n list =
+let bytes_of_hex (s : str) : coq_N list =
   if s = "-" then [] else
   let l = ref [] in
-  let i = ref (String.length s - 2) in
+  let i = ref (Stdlib.String.length s - 2) in
   while !i >= 0 do
     l := n_of_int (hexval s.[!i] * 16 + hexval s.[!i + 1]) :: !l;
     i := !i - 2
   done; !l
 
-let hex_of_bytes (l : n list) : string =
+let hex_of_bytes (l : coq_N list) : str =
   if l = [] then "-" else
-  String.concat "" (List.map (fun x -> Printf.sprintf "%02x" (int_of_n x)) l)
+  Stdlib.String.concat "" (Stdlib.List.map (fun x -> Printf.sprintf "%02x" (int_of_n x)) l)
 
-let string_of_bools (l : bool list) : string =
+let string_of_bools (l : bool list) : str =
   if l = [] then "-" else
   let b = Buffer.create 64 in
-  List.iter (fun x -> Buffer.add_char b (if x then '1' else '0')) l;
+  Stdlib.List.iter (fun x -> Buffer.add_char b (if x then '1' else '0')) l;
   Buffer.contents b
 
-let bools_of_string (s : string) : bool list =
-  if s = "-" then [] else List.init (String.length s) (fun i -> s.[i] = '1')
+let bools_of_string (s : str) : bool list =
+  if s = "-" then [] else Stdlib.List.init (Stdlib.String.length s) (fun i -> s.[i] = '1')
 
 let cbs_of hex s e : cbs =
   { cstart = nat_of_int (int_of_string s); cend = nat_of_int (int_of_string e); cdata = bytes_of_hex hex }
 
-let bits_of_cbs (c : cbs) : string = string_of_bools (abs c)
+let bits_of_cbs (c : cbs) : str = string_of_bools (abs c)
+
+(* ---- Coq strings (UTF-8 bytes) ---- *)
+let ascii_of_code (c : int) : Ascii.ascii =
+  let b k = (c lsr k) land 1 = 1 in
+  Ascii.Ascii (b 0, b 1, b 2, b 3, b 4, b 5, b 6, b 7)
+let code_of_ascii (a : Ascii.ascii) : int =
+  match a with Ascii.Ascii (b0, b1, b2, b3, b4, b5, b6, b7) ->
+    let v b k = if b then 1 lsl k else 0 in
+    v b0 0 + v b1 1 + v b2 2 + v b3 3 + v b4 4 + v b5 5 + v b6 6 + v b7 7
+
+let coq_of_string (s : str) : CoqString.string =
+  let r = ref CoqString.EmptyString in
+  for i = Stdlib.String.length s - 1 downto 0 do r := CoqString.String (ascii_of_code (Char.code s.[i]), !r) done; !r
+let string_of_coq (s : CoqString.string) : str =
+  let b = Buffer.create 32 in
+  let rec go = function CoqString.EmptyString -> () | CoqString.String (a, r) -> Buffer.add_char b (Char.chr (code_of_ascii a)); go r in
+  go s; Buffer.contents b
+
+let string_of_hexbytes (h : str) : str =
+  if h = "-" then "" else Stdlib.String.init (Stdlib.String.length h / 2) (fun i -> Char.chr (hexval h.[2*i] * 16 + hexval h.[2*i+1]))
+let hexbytes_of_string (s : str) : str =
+  if s = "" then "-" else Stdlib.String.concat "" (Stdlib.List.init (Stdlib.String.length s) (fun i -> Printf.sprintf "%02x" (Char.code s.[i])))
+
+(* ---- canonical cells ---- *)
+let rec cell_str (c : cell) : str =
+  match c with
+  | CNil -> "N"
+  | CFlag true -> "T" | CFlag false -> "F"
+  | CInt z -> "I" ^ hex_of_z z
+  | CReal p -> if f64_is_nan p then "Rnan" else
+      let h = hex_of_z p in "R" ^ Stdlib.String.make (16 - Stdlib.String.length h) '0' ^ h
+  | CStr s -> "S" ^ hexbytes_of_string (string_of_coq s)
+  | CVec l -> "V(" ^ Stdlib.String.concat "," (Stdlib.List.map cell_str l) ^ ")"
+  | CMap m -> map_str m
+  | CFun (FInterp a) -> "Fi" ^ string_of_int (int_of_nat a)
+  | CFun (FNative n) -> "Fn" ^ string_of_coq n
+  | CBits b -> "B" ^ bits_of_cbs b
+  | CAny -> "A"
+  | CTag (t, v) -> "G(" ^ cell_str v ^ "," ^ map_str t ^ ")"
+and map_str m = "M(" ^ Stdlib.String.concat "," (Stdlib.List.map (fun (k, v) -> cell_str k ^ "=" ^ cell_str v) m) ^ ")"
+
+(* parser of canonical cells; maps are rebuilt with assoc_insert so that the
+   model's sortedness invariant holds whatever order the text lists them in *)
+let parse_cell (s : str) : cell =
+  let n = Stdlib.String.length s in
+  let pos = ref 0 in
+  let peek () = if !pos < n then s.[!pos] else '\000' in
+  let take_while f = let st = !pos in while !pos < n && f s.[!pos] do incr pos done; Stdlib.String.sub s st (!pos - st) in
+  let is_tok c = not (c = ',' || c = ')' || c = '=' || c = '(') in
+  let rec cell () : cell =
+    let c = peek () in incr pos;
+    match c with
+    | 'N' -> CNil | 'T' -> CFlag true | 'F' when (peek () <> 'i' && peek () <> 'n') -> CFlag false
+    | 'F' -> let k = peek () in incr pos; let t = take_while is_tok in
+      if k = 'i' then CFun (FInterp (nat_of_int (int_of_string t))) else CFun (FNative (coq_of_string t))
+    | 'I' -> CInt (z_of_hex (take_while is_tok))
+    | 'R' -> let t = take_while is_tok in
+      if t = "nan" then CReal (z_of_hex "7ff8000000000000") else CReal (z_of_hex t)
+    | 'S' -> CStr (coq_of_string (string_of_hexbytes (take_while is_tok)))
+    | 'B' -> let t = take_while is_tok in of_bools (bools_of_string t) |> fun b -> CBits b
+    | 'A' -> CAny
+    | 'V' -> incr pos; (* ( *)
+      let l = ref [] in
+      if peek () = ')' then incr pos else begin
+        let continue = ref true in
+        while !continue do
+          l := cell () :: !l;
+          if peek () = ',' then incr pos else (incr pos; continue := false)
+        done end;
+      CVec (Stdlib.List.rev !l)
+    | 'M' -> CMap (mapbody ())
+    | 'G' -> incr pos;
+      let v = cell () in incr pos; (* , *)
+      incr pos; (* M *)
+      let t = mapbody () in incr pos; (* ) *)
+      CTag (t, v)
+    | c -> failwith (Printf.sprintf "parse_cell %c in %s" c s)
+  and mapbody () =
+    incr pos; (* ( *)
+    let m = ref [] in
+    if peek () = ')' then incr pos else begin
+      let continue = ref true in
+      while !continue do
+        let k = cell () in incr pos; (* = *)
+        let v = cell () in
+        m := assoc_insert !m k v;
+        if peek () = ',' then incr pos else (incr pos; continue := false)
+      done end;
+    !m
+  in cell ()
